@@ -37,6 +37,7 @@ from pynguin.testcase.execution_isolation import (
     OutputSuppressionContext,
     PatchRandomOnUnpickle,
     _make_deterministic,
+    preserve_logging_state,
     suppress_logging,
 )
 from pynguin.testcase.execution_observers import (
@@ -434,6 +435,7 @@ class TestCaseExecutor(AbstractTestCaseExecutor):
             with (
                 FilesystemIsolation(),
                 output_suppression_context,
+                preserve_logging_state(),
                 self._subject_properties.instrumentation_tracer,
             ):
                 namespace = self._build_namespace()
